@@ -5,8 +5,9 @@ from pysym.harness import run_cases
 
 LEVEL = 'exploration'
 DEDUCTIVE = [('contracts.hashes', ('Element.__hash__', 'Bond.__hash__', 'CANARY')), ('contracts.ringsmorgan', ('_morgan',))]          # (contract module, case-name filter) run by engine P
-FINISH = dict(rule='see checks/b01.py RULE / run.bound entries', explanation='bounded stand-in (engine B) of the contracts of DESIGN §2 C01; '
-              'labelled bounded, never counted as proved', trusted_base=['CPython 3.12', 'oracles/*', 'RDKit where stated'])
+FINISH = dict(rule='deductive: one obligation per path / table key; B: see run.bound entries of checks/b01.py',
+              explanation='P: hashed tuples of Element.__hash__/Bond.__hash__ (frame: only the named fields) and neighbour-order independence of one _morgan refinement step (degree<=3), all values; B: renumbering x insertion order x re-spelling relation with symmetry-oracle gap filter',
+              trusted_base=['CPython', 'z3', 'pysym', 'oracles/iso.py, o01_gaps.py, o01_stereo.py, o01_families.py', 'RDKit (second writer)'])
 replay = make_replay('C01')
 
 
